@@ -20,6 +20,7 @@ import (
 	"encoding/hex"
 	"errors"
 	"fmt"
+	"hash/crc32"
 	"io"
 	"os"
 	"path/filepath"
@@ -478,6 +479,41 @@ func source(r *scriptReader, lim string) io.Reader {
 	return io.LimitReader(r, atoi(lim))
 }
 
+// wrapVR: a reader behaviour inside the quantifier ("every reader behaviour"): the caller hands
+// over a reader that is ITSELF a content.VerifyReader for the same digest, built with the true
+// length of the stream (callers that verify on their own before a Push that verifies again).  On
+// a stream without injected failures such a reader delivers exactly what the plain reader
+// delivers (same bytes, EOF at the same place), so the model input and every expected observable
+// are those of the plain reader; what must not happen is that the outer verification is skipped
+// or shortened because the inner one is there.  The choice is a function of the case content, so
+// a replayed case wraps again.
+func wrapVR(p Push) bool {
+	if len(beforeEOF(p.Script)) == 0 || digest.Digest(p.DG).Validate() != nil {
+		return false
+	}
+	for i, e := range p.Script {
+		if e.Kind == 'F' || (e.Kind == 'E' && i != len(p.Script)-1) {
+			return false // (a reader that goes on after its first io.EOF is not the same behind a limited reader)
+		}
+	}
+	return crc32.ChecksumIEEE([]byte(p.DG+"/"+strconv.FormatInt(p.SZ, 10)))%3 == 0
+}
+
+func maybeWrapVR(r io.Reader, p Push) io.Reader {
+	if !wrapVR(p) {
+		return r
+	}
+	run.Count("reader:nested-verify-reader")
+	return content.NewVerifyReader(r, ocispec.Descriptor{MediaType: p.MT, Digest: digest.Digest(p.DG), Size: int64(len(beforeEOF(p.Script)))})
+}
+
+func sourceP(r *scriptReader, lim string, p Push) io.Reader {
+	if lim == "-" {
+		return maybeWrapVR(r, p)
+	}
+	return source(r, lim)
+}
+
 // ---------------------------------------------------------------- canonical errors
 
 func errEnum(err error) string {
@@ -595,10 +631,10 @@ func runRA(id string, c *Case) string {
 	r := newReader(p)
 	var b []byte
 	var err error
-	read := func() { b, err = content.ReadAll(source(r, c.Lim), descOf(p)) }
+	read := func() { b, err = content.ReadAll(sourceP(r, c.Lim, p), descOf(p)) }
 	if c.Op == "FA" {
 		fetcher := content.FetcherFunc(func(context.Context, ocispec.Descriptor) (io.ReadCloser, error) {
-			return io.NopCloser(source(r, c.Lim)), nil
+			return io.NopCloser(sourceP(r, c.Lim, p)), nil
 		})
 		read = func() { b, err = content.FetchAll(ctx, fetcher, descOf(p)) }
 	}
@@ -632,7 +668,7 @@ func runCB(id string, c *Case) string {
 	p := c.Pushes[0]
 	r := newReader(p)
 	var out bytes.Buffer
-	err := hooks.CopyBuffer(plainWriter{&out}, source(r, c.Lim), make([]byte, c.BufSz), descOf(p))
+	err := hooks.CopyBuffer(plainWriter{&out}, sourceP(r, c.Lim, p), make([]byte, c.BufSz), descOf(p))
 	st := beforeEOF(p.Script)
 	if err == nil {
 		switch {
@@ -679,7 +715,7 @@ func runCW(id string, c *Case) string {
 	p := c.Pushes[0]
 	r := newReader(p)
 	w := &faultyWriter{mode: c.WMode, left: c.WAt}
-	err := hooks.CopyBuffer(w, source(r, c.Lim), make([]byte, c.BufSz), descOf(p))
+	err := hooks.CopyBuffer(w, sourceP(r, c.Lim, p), make([]byte, c.BufSz), descOf(p))
 	if err == nil {
 		switch {
 		case w.fault:
@@ -698,7 +734,7 @@ func runVR(id string, c *Case) string {
 	if c.Lim == "" {
 		c.Lim = "-"
 	}
-	vr := content.NewVerifyReader(source(r, c.Lim), descOf(p))
+	vr := content.NewVerifyReader(sourceP(r, c.Lim, p), descOf(p))
 	var got []byte
 	var outs []string
 	st := beforeEOF(p.Script)
@@ -941,7 +977,8 @@ func runST(id string, c *Case) string {
 		_, qxBefore := existsStr(e.st, qd)
 		qrawBefore, qerrBefore := rawFetch(e.st, qd)
 		pushDone := make(chan any, 1)
-		go func() { pushDone <- guard(func() { err = e.st.Push(ctx, d, rd) }) }()
+		prd := maybeWrapVR(rd, p)
+		go func() { pushDone <- guard(func() { err = e.st.Push(ctx, d, prd) }) }()
 		var pv any
 		finished := false
 		if rd.reached != nil {
